@@ -29,7 +29,7 @@ def _decoded(triple, size):
     return None if v is None else [v.value, v.min_value, v.max_value]
 
 
-async def _probe(tbl, idx, raw, lo, hi, other, via_device=False, prior=None, size=None):
+async def _probe(tbl, idx, raw, lo, hi, other, via_device=False, prior=None, size=None, racing=False):
     """display of raw / bounds, and the raw value transmitted when the displayed value is written back.
     prior = raw bounds of an EARLIER report carrying the same raw value (the parameter object has a history)."""
     if tbl == 5:
@@ -47,6 +47,9 @@ async def _probe(tbl, idx, raw, lo, hi, other, via_device=False, prior=None, siz
     shown, smin, smax = p.value, p.min_value, p.max_value
     import asyncio
     task = asyncio.ensure_future(_setter(q, via_device)(shown))
+    if racing and tbl != 5:
+        # a controller report (still the old value) is handled in the very loop iteration in which the write starts
+        asyncio.get_running_loop().call_soon(_report, q, [other, 0, 65535])
     for _ in range(8):
         await asyncio.sleep(0)
     outs = param_impl.drain(queue2, sc2, rc2, dec2)
@@ -175,7 +178,7 @@ class C17(Prop):
                                   # (the controller may report a value outside the bounds it reports with it: writing back what is
                                   #  displayed for it is refused like any other out-of-range value)
                                   "acc": [w, blo, bhi, w if not (blo <= w <= bhi) and rng.random() < 0.4 else held_for(w)],
-                                  "via_device": rng.random() < 0.5,
+                                  "via_device": rng.random() < 0.5, "racing": rng.random() < 0.3,
                                   # half of the triples pass through the library's decoder of parameter slots (bounds in reverse order included); half of the parameter objects have a history: an earlier report with the same value and other bounds
                                   "prior": None if tbl == 5 or rng.random() < 0.5 else sorted([rng.choice(marks), rng.choice(marks)])})
         # two parameters reported with identical bytes: writing one must not change what the other displays (nor what either
@@ -202,7 +205,7 @@ class C17(Prop):
             return {"pair": [coqeval.float_key(float(other_now)), coqeval.float_key(float(first_later)), coqeval.float_key(float(other_later))],
                     "_stable": other_now == before[1] and first_later == before[0] and other_later == before[1]}
         shown, smin, smax, sent = vloop.run(_probe, c["tbl"], c["idx"], c["raw"], c["lo"], c["hi"], c["other"], c.get("via_device", False),
-                                            c.get("prior"), c.get("decoded_size"))
+                                            c.get("prior"), c.get("decoded_size"), c.get("racing", False))
         out = {"display": coqeval.float_key(float(shown)), "min": coqeval.float_key(float(smin)),
                "max": coqeval.float_key(float(smax)), "sent": sent}
         if "acc" in c:
